@@ -46,7 +46,12 @@ FE_VARIANTS = [{'filter_kwargs': {'n_cycles': 4}, 'boundary': 2}, {'filter_kwarg
                {'pad': False, 'filter_kwargs': {'n_cycles': 3}}]
 
 
-def snap_heap(D, fe_literal=FE_VARIANTS[0]):
+# the burst options the user shares (dictionary 2): the plain ones, or with a nested filter dictionary and a minimum burst duration
+BK_VARIANTS = [{'amp_threshes': (1, 2), 'fs': FS, 'f_range': FR},
+               {'amp_threshes': (1, 2), 'fs': FS, 'f_range': FR, 'filter_kwargs': {'n_cycles': 4}, 'min_burst_duration': 0.25}]
+
+
+def snap_heap(D, fe_literal=FE_VARIANTS[0], bk_literal=BK_VARIANTS[0]):
     out = []
     for r in (1, 2, 3, 4, 5, 6):
         d = D[r]
@@ -56,8 +61,8 @@ def snap_heap(D, fe_literal=FE_VARIANTS[0]):
             continue
         if r == 2:
             lvl = 1
-            expected = {'amp_threshes', 'fs', 'f_range', 'min_n_cycles'}
-            junk = 0 if set(d) <= expected and d.get('amp_threshes') == (1, 2) and d.get('fs') == FS and tuple(d.get('f_range', ())) == FR else 1
+            body = {k: (tuple(v) if k == 'f_range' else v) for k, v in d.items() if k != 'min_n_cycles'}
+            junk = 0 if body == bk_literal else 1          # nested dictionaries included: nothing but min_n_cycles (Edit events) may ever change
         else:
             fam = CYC if r in (1, 5) else AMP
             body = {k: v for k, v in _norm(d).items() if k != 'min_n_cycles'}
@@ -93,6 +98,8 @@ def replay(behaviour, shorthand=None):
     D = fresh_dicts()                    # the user's dictionaries (identity persists through the session)
     fe_literal = FE_VARIANTS[sum(3 * a['o'] + a['s'] + a['v'] + len(a.get('f', '')) for a in behaviour) % 4]
     D[4] = copy.deepcopy(fe_literal)
+    bk_literal = BK_VARIANTS[sum(a['o'] + 2 * a['s'] + len(a.get('f', '')) for a in behaviour) % 2]
+    D[2] = copy.deepcopy(bk_literal)
     if shorthand:
         for r in (1, 3, 5, 6):
             D[r] = {k.replace('_threshold', ''): v for k, v in D[r].items()}
@@ -272,6 +279,6 @@ def replay(behaviour, shorthand=None):
                     ev['result_fp'] = pt.table_fp(res) if res is not None else 1
             except Exception as ex:
                 ev['raised'] = type(ex).__name__ + ':' + str(ex)[:70]
-        ev['heap'] = snap_heap(D, fe_literal)
+        ev['heap'] = snap_heap(D, fe_literal, bk_literal)
         events.append(ev)
     return events
